@@ -66,6 +66,7 @@ type harnessReport struct {
 	MaxDepth     int            `json:"max_decisions_on_a_path"`
 	Reached      map[string]int `json:"reach_tags"`
 	Inconclusive []string       `json:"inconclusive,omitempty"`
+	SkippedInit  []string       `json:"package_initializers_not_executed,omitempty"`
 	Violations   []*Violation   `json:"violations,omitempty"`
 }
 
@@ -213,6 +214,10 @@ func cmdCheck(args []string) int {
 				Cuts: hr.cuts, Steps: hr.steps, Queries: hr.queries, Sat: hr.sat, Unsat: hr.unsat, Unknown: hr.unknown,
 				AssertQ: hr.assertQ, AssertUnsat: hr.assertUnsat, SolverS: hr.solverTime.Seconds(), WallS: time.Since(t0).Seconds(),
 				MaxDepth: hr.maxDepthSeen, Reached: hr.reached, Inconclusive: hr.Inconclusive()}
+			for k := range hr.skippedInit {
+				rep.SkippedInit = append(rep.SkippedInit, k)
+			}
+			sort.Strings(rep.SkippedInit)
 			if len(rep.Inconclusive) > 0 {
 				inconclusive = true
 			}
